@@ -38,6 +38,8 @@ func v17RepoSample() []byte {
 	return b
 }
 
+var v17FuzzOtherDgram = v17RepoSample()
+
 type v17UDPCase struct {
 	class     string
 	dgram     []byte
@@ -282,11 +284,13 @@ func v17GenUDP(t *rapid.T) v17UDPCase {
 	return c
 }
 
-// v17RunUDP applies U1–U3 to one datagram.
-func v17RunUDP(sn *Sniffer, c v17UDPCase, addr v17Addr) (violation string, changed bool, err error) {
-	before := append([]byte{}, c.dgram...)
-	reqAddr := addr.render
-	err = sn.UDP(c.dgram, &reqAddr)
+// v17EvalUDP applies U1–U3 to one datagram after Sniffer.UDP(c.dgram, &reqAddr)
+// returned (reqAddr, err). c.orig is the private copy taken before the call.
+// It is called only after every datagram of the case has been sniffed, while
+// the earlier data slices were still held (as the server holds them until the
+// target is dialled and the packet written).
+func v17EvalUDP(c v17UDPCase, addr v17Addr, reqAddr string, err error) (violation string, changed bool, _ error) {
+	before := c.orig
 	if !bytes.Equal(before, c.dgram) {
 		nd, first := 0, -1
 		for i := range before {
@@ -326,30 +330,55 @@ func TestVerifC17_UDP(t *testing.T) {
 	defer st.Flush()
 	var errReturns int64
 	rapid.Check(t, func(rt *rapid.T) {
-		c := v17GenUDP(rt)
-		addr := v17GenAddr(rt)
-		sn, ports, cfg := v17GenSniffer(rt, addr, true)
-		if !v17CheckCheck(rt, sn, true, addr, ports, cfg) {
-			st.Case(false, "", []string{"not-hooked(port filter/domain)"}, func() string { return "not hooked: " + addr.render + " " + cfg })
-			return
+		// 1–3 first datagrams (of different sessions) hooked by ONE Sniffer; the
+		// data slices of earlier ones are held while later ones are sniffed.
+		n := rapid.SampledFrom([]int{1, 2, 2, 3}).Draw(rt, "datagrams")
+		type run struct {
+			c       v17UDPCase
+			addr    v17Addr
+			reqAddr string
+			err     error
 		}
-		violation, changed, err := v17RunUDP(sn, c, addr)
-		classes := []string{"class:" + c.class}
-		if changed {
-			classes = append(classes, "rewritten")
-		} else {
-			classes = append(classes, "unchanged")
+		var runs []*run
+		var sn *Sniffer
+		var ports []v17PR
+		var cfg string
+		for i := 0; i < n; i++ {
+			c := v17GenUDP(rt)
+			addr := v17GenAddr(rt)
+			if i == 0 {
+				sn, ports, cfg = v17GenSniffer(rt, addr, true)
+			}
+			if !v17CheckCheck(rt, sn, true, addr, ports, cfg) {
+				st.Case(false, "", []string{"not-hooked(port filter/domain)"}, func() string { return "not hooked: " + addr.render + " " + cfg })
+				continue
+			}
+			runs = append(runs, &run{c: c, addr: addr})
 		}
-		if err != nil {
-			errReturns++
-			classes = append(classes, "error-return(no claim on address)")
+		for _, r := range runs {
+			r.reqAddr = r.addr.render
+			r.err = sn.UDP(r.c.dgram, &r.reqAddr)
 		}
-		render := func() string {
-			return fmt.Sprintf("%s addr=%s sniffer{%s} changed=%v err=%v dgram(%d)=%s", c.desc, addr.render, cfg, changed, err, len(c.orig), v17Hex(c.orig))
-		}
-		st.Case(c.validQUIC, c.fp, classes, render)
-		if violation != "" {
-			rt.Fatalf("C17: %s\n  %s", violation, render())
+		for i, r := range runs {
+			c, addr := r.c, r.addr
+			violation, changed, err := v17EvalUDP(c, addr, r.reqAddr, r.err)
+			classes := []string{"class:" + c.class, fmt.Sprintf("datagrams-in-case:%d", len(runs))}
+			if changed {
+				classes = append(classes, "rewritten")
+			} else {
+				classes = append(classes, "unchanged")
+			}
+			if err != nil {
+				errReturns++
+				classes = append(classes, "error-return(no claim on address)")
+			}
+			render := func() string {
+				return fmt.Sprintf("datagram %d of %d: %s addr=%s sniffer{%s} changed=%v err=%v dgram(%d)=%s", i+1, len(runs), c.desc, addr.render, cfg, changed, err, len(c.orig), v17Hex(c.orig))
+			}
+			st.Case(c.validQUIC, c.fp, classes, render)
+			if violation != "" {
+				rt.Fatalf("C17: %s\n  %s", violation, render())
+			}
 		}
 	})
 	st.Extra("error_returns", errReturns)
@@ -486,6 +515,11 @@ func FuzzVerifC17_UDP(f *testing.F) {
 		orig := "198.51.100.7:443"
 		reqAddr := orig
 		err := sn.UDP(data, &reqAddr)
+		// the slice is still held by the server while another session's first datagram is sniffed
+		if v17FuzzOtherDgram != nil {
+			otherAddr := "198.51.100.8:443"
+			_ = sn.UDP(append([]byte{}, v17FuzzOtherDgram...), &otherAddr)
+		}
 		if !bytes.Equal(before, data) {
 			t.Fatalf("C17 fuzz: Sniffer.UDP modified the datagram: first difference at offset %d of %d; input %s", v17FirstDiff(before, data), len(before), v17Hex(before))
 		}
